@@ -14,6 +14,7 @@ from ..strategies import finite, valid_family
 from . import _land as LD
 
 FUZZ = ["sum_two"]
+THOROUGH_SCALE = 1     # already minutes per run (exact oracles on every step / large graphs)
 RULE = ("A history = 1..3 initial landscapes (from generated critical pairs, or from diagrams) + a generated list of operations (+, -, unary -, "
         "c*, *c, /c, /0, mismatched degree/grid, re-use of one operand twice, results fed back into the pool) interpreted against the real objects "
         "AND against an independent pointwise model; after EVERY step every pool entry is compared with its model and with a deep snapshot taken "
